@@ -12,7 +12,9 @@ model run: the same (kind, position, tree) through EasyNet/Model/Iso.lean over t
 oracle   : independent of the model — server still serving, serve task alive, H1/H2/N answered exactly as in a fault-free
            run of the same schedule, faulty TCP connection closed (both ends), on_disconnection exactly once iff
            on_connection completed (never twice), every started generator closed, for UDP a later datagram from the
-           faulty address gets a fresh generator.  Non-Exception leaves (KeyboardInterrupt, SystemExit, CancelledError, a
+           faulty address gets a fresh generator; a client that sends malformed input is answered exactly as the
+           handler's treatment of the parse error says (valid requests before it served, "bad" + what follows when the
+           handler catches it, connection closed + on_disconnection when it re-raises / does not catch it).  Non-Exception leaves (KeyboardInterrupt, SystemExit, CancelledError, a
            BaseException subclass) are outside what the property promises: no oracle (the boundary is C17_taskgroup_unaffected).
 
 case format
@@ -86,7 +88,10 @@ ASSUMPTIONS = [
 RULE = (
     "case = server kind (tcp, tcp-tls, udp) x fault (exception tree x hook position | real set-up fault) x schedule (H2 held "
     "during the fault or not, H1 in its first/second generator, on_connection as coroutine or generator, k-th request, "
-    "generator index); quick = every Exception leaf class x every position of the generated nesting map once, + groups "
+    "generator index) | malformed input sent by the faulty client itself (how it is cut into segments x what the handler "
+    "does with the parse error x number of valid requests before x StreamProtocol/BufferedStreamProtocol x while "
+    "on_connection runs / yield with a timeout / half-close right behind; UDP: malformed datagram alone or queued behind a "
+    "valid one); quick = every Exception leaf class x every position of the generated nesting map once, + groups "
     "(flat, nested, mixed with ClientClosedError/ConnectionError, with a non-Exception leaf) + real set-up faults + unit cases "
     "(each filter alone, BaseExceptionGroup.split) on generated trees; non-trivial = a fault actually raised (or a unit "
     "case), keyed by kind/position/tree shape/leaf family; distinct by full case digest"
